@@ -135,7 +135,7 @@ inline void judge_fs_cc(Acc &acc, const FsCase &c, const RunResult &R, Prepared 
 	J w = c.json(); w.kv("verifier_verdict", R.ok).kv("prepared_for", P == P_NONE ? "(nothing)" : want).kv("observed_challenges", observed).kv("scripted_coins", bits_str(script));
 	if (R.ok && !eq) {
 		count("fs_accepted_false");
-		violation("C04/accepted-false/" + c.proto + "/" + c.kind + "/" + c.strategy, "cut-and-choose verifier accepted a false statement although the challenge string differs from the one the prover was prepared for",
+		violation("C04/accepted-false/" + c.proto + "/" + c.kind + "/" + c.strategy, P == P_NONE ? "cut-and-choose verifier accepted a false statement that has to be refused whatever the challenges are" : "cut-and-choose verifier accepted a false statement although the challenge string differs from the one the prover was prepared for",
 		          w.raw("statement", statement_json).arr("transcript_tail", transcript_tail(R)).str());
 	} else if (!R.ok && eq) {
 		count("fs_harness_prepared_rejected");
